@@ -212,7 +212,7 @@ def main(argv=None):
                 if ob["result"] != "proved":
                     can_ok = True  # a canary must never be PROVED (refuted or undecided is fine)
                 continue
-            if ob["prop"] is not None and ob["prop"] != pid:
+            if ob["prop"] is not None and pid not in str(ob["prop"]).split("|"):
                 continue  # clause tagged for another property of a shared unit
             mine.append(ob)
         if not can_ok and not r["errors"]:
@@ -265,7 +265,8 @@ def main(argv=None):
             k = match_known(kf, pid, v)
             if k:
                 known.append((v, k))
-                n_obl -= 1
+                if ex["obligations"] > 0 and not ex.get("bounded"):
+                    n_obl -= 1  # it was counted among the extra's obligations; bounded extras count none
             else:
                 violations.append((v, None))
         for e in ex.get("errors", []):
